@@ -38,8 +38,8 @@ def syslog_events(path):
 
 def run(chk, replay=None):
     thorough = chk.tier == "thorough"
-    chk.cov["checker_cmd"] = "tlc MC_FileSys (tmprename: invariant holds; direct: violated); tlc Trace_C18 (TRACE=out/C18/trace.ndjson)"
-    chk.cov["trusted_base"] = ["TLC", "LD_PRELOAD interposer sees open/fopen/write/writev/rename/unlink of the C++ runtime (close is issued inside libc and not seen; it "
+    chk.cov["checker_cmd"] = "tlc MC_FileSys (tmprename: invariant holds; direct: violated); apalache-mc check --init=IndInv --length=1 --inv=IndInv FileSys_apa.tla; tlc Trace_C18 (TRACE=out/C18/trace.ndjson)"
+    chk.cov["trusted_base"] = ["TLC", "Apalache 0.58 + Z3 (inductive invariant of the file protocol)", "LD_PRELOAD interposer sees open/fopen/write/writev/rename/unlink of the C++ runtime (close is issued inside libc and not seen; it "
                                "does not change file contents)", "process kill = _exit inside the interposer (page cache survives, as for SIGKILL); power loss / fsync out of scope"]
     chk.cov["rule"] = ("one case per kill point: for PLAIN (checkpoint < 1 kB, below the stream buffer), mpi_plain on 3 ranks of the thread shim with mpi_callback, multi-channel (~10 kB) and VEGAS (128 bins x 3 dims, 30-80 kB, "
                        "many 8 kB writes) with 3 iterations: kill before and after every open / write / rename and inside every write after {0, 1, half, n-1} "
@@ -48,6 +48,15 @@ def run(chk, replay=None):
     chk.model("MC_FileSys", "MC_FileSys_tmp", what="MC_FileSys tmp+rename protocol: FileCompleteOrAbsent in every state incl. all partial writes")
     chk.model("MC_FileSys", "MC_FileSys_direct", what="MC_FileSys direct protocol (as coded before fix 4d363c6): invariant violated",
               expect_violation="FileCompleteOrAbsent")
+    # the same protocol for any number of iterations and any text sizes: an inductive invariant discharged by Apalache / Z3
+    import apacommon
+    done = apacommon.discharge(chk, "FileSys_apa", [
+        (["--cinit=CInit", "--length=0", "--inv=IndInv"], "ok", "Init => IndInv"),
+        (["--cinit=CInit", "--init=IndInv", "--length=1", "--inv=IndInv"], "ok", "IndInv /\\ Next => IndInv' (any iteration count, any sizes, kill anywhere)"),
+        (["--cinit=CInit", "--init=IndInv", "--length=0", "--inv=TargetOK"], "ok", "IndInv => TargetOK (target absent or a complete previous / new checkpoint)"),
+        (["--cinit=CInitDirect", "--length=6", "--inv=TargetOK"], "error", "writing into the target itself: TargetOK violated")])
+    chk.cov["obligations"] = len(done)
+    chk.cov["discharged"] = len(done)
     # composition with the session: kill anywhere, restart from the file, same end (safety + liveness under fairness)
     comp = vt.tlc("Crash", "Crash_tmp", workers=4, tag="C18")
     chk.add_tlc("Crash (session x file protocol x up to 3 kills, tmp+rename): FileOK, NeverLost, SameEnd, PROPERTY Completes", comp)
